@@ -115,6 +115,15 @@ func init() {
 		}
 		return append(it, reuseFrameItems(tier)...)
 	})
+	addItems("C06", func(tier string) []Item {
+		var it []Item
+		for _, l := range pick(tier, []int{12, 13, 15, 18}, rng(12, 30)) {
+			for mode := 0; mode <= 2; mode++ {
+				it = append(it, Item{PkgKey: "root", Func: "VerifC06_DecodeModifyEncode", Shape: []int{l, mode}})
+			}
+		}
+		return it
+	})
 	addItems("C08", func(tier string) []Item { return reuseFrameItems(tier) })
 	addItems("C11", func(tier string) []Item {
 		var it []Item
